@@ -201,7 +201,7 @@ PROPS = {
         "design_ref": "DESIGN.md §3.15, §4 C03",
     },
     "C06": {
-        "rules": ["FWDTHREAD", "FWDHELPERS", "PATHIDX", "FWDSIB", "FWDPRESENT", "FWDWALK", "APIFWD"],
+        "rules": ["FWDTHREAD", "FWDHELPERS", "PATHIDX", "FWDSIB", "WRAPDEPTH", "FWDPRESENT", "FWDWALK", "APIFWD"],
         "thorough": [],
         "technique": "static analysis: abstract interpretation of every rewrite with a type system over tree epochs (cursor/forwarder/tree, relative to the current tree); metavariable patterns for the shared multi-edit helpers and the provenance walk",
         "level_text": "Structural clauses, decided on every path of every editing function: each elementary edit acts on a cursor into the *current* tree (never a stale one), each edit's "
